@@ -89,10 +89,11 @@ def scan_trusted(text):
     return seen, bad
 
 
-def generate(unit_name, repo, extra_consts=()):
+def generate(unit_name, repo, extra_consts=(), inline=()):
     tpl = os.path.join(VERIF, 'units', unit_name, 'unit.vx')
     u = Unit(unit_name, repo, tpl)
     u.extra_consts = list(extra_consts)
+    u.extra_rules = list(inline)
     u.process()
     return u
 
@@ -114,14 +115,133 @@ def _find_consts(u, repo, names):
     return out
 
 
+def _find_inline_rules(u, repo, names):
+    """Rule X-INLINE: `R.name(a, b)` -> `({ let __a0 = a; let __a1 = b; let p: T = __a0; ..; BODY[self := R] })` for a
+    method `fn name(&self, p: T, ..) -> U { BODY }` found (exactly once) in the files this unit cuts from, whose body has
+    no `return`, `?`, loop, closure or assignment and whose receiver is `&self` (or absent parameters by value).  The
+    replacement is the callee's own text, so the caller is verified with the callee's real behaviour."""
+    from rtok import Source, tokenize, match_close
+    from rewrite import Rule
+    out = []
+    for name in names:
+        hits = []
+        for path in sorted({c['path'] for c in u.cuts if not c['path'].startswith('@')}):
+            try:
+                src = Source(path, open(os.path.join(repo, path)).read())
+            except OSError:
+                continue
+            for it in src._all():
+                if it.kind == 'impl' and it.members:
+                    for m in it.members:
+                        if m.kind == 'fn' and m.name == name and m.body_open >= 0:
+                            hits.append((src, m))
+        if len(hits) != 1:
+            return []
+        src, m = hits[0]
+        toks = src.toks
+        # signature: fn name ( params ) -> T {
+        k = m.tok_start
+        while toks[k].text != 'fn':
+            k += 1
+        k += 2
+        if toks[k].text != '(':
+            return []                       # generic helper: not handled
+        pc = match_close(toks, k)
+        ptoks = toks[k + 1:pc]
+        ptext = src.text[ptoks[0].start:ptoks[-1].end] if ptoks else ''
+        parts = [x.strip() for x in _split_top(ptext)]
+        if not parts or parts[0] not in ('&self', 'self'):
+            return []
+        params = []
+        for q in parts[1:]:
+            if not q:
+                continue
+            mm = re.match(r'^(\w+)\s*:\s*(.+)$', q, re.S)
+            if not mm or '&mut' in mm.group(2):
+                return []
+            params.append((mm.group(1), ' '.join(mm.group(2).split())))
+        body = toks[m.body_open + 1:m.body_close]
+        texts = [t.text for t in body]
+        if not body or any(t in ('return', '?', 'loop', 'while', 'for', '|', 'unsafe', 'break', 'continue') for t in texts):
+            return []
+        if any(t in ('=', '+=', '-=', '*=', '/=', '%=', '^=', '|=', '&=', '<<=', '>>=') and not (i > 0 and _is_let_eq(texts, i))
+               for i, t in enumerate(texts)):
+            return []
+        btxt = ''
+        pos = body[0].start
+        for t in body:
+            btxt += src.text[pos:t.start]
+            btxt += '$r' if (t.kind == 'id' and t.text == 'self') else t.text
+            pos = t.end
+        pat = '$r:p.%s(%s)' % (name, ', '.join('$a%d:e' % i for i in range(len(params))) + (' $_c:c' if params else ''))
+        lets = ' '.join('let __a%d = $a%d;' % (i, i) for i in range(len(params)))
+        binds = ' '.join('let %s: %s = __a%d;' % (pn, pt, i) for i, (pn, pt) in enumerate(params))
+        out.append(Rule('X-INLINE', pat, '({ %s %s %s })' % (lets, binds, btxt)))
+    return out
+
+
+def _split_top(s):
+    out, depth, cur = [], 0, ''
+    for ch in s:
+        if ch in '([{<':
+            depth += 1
+        elif ch in ')]}>':
+            depth -= 1
+        if ch == ',' and depth == 0:
+            out.append(cur)
+            cur = ''
+        else:
+            cur += ch
+    out.append(cur)
+    return out
+
+
+def _is_let_eq(texts, i):
+    """texts[i] == '=' belongs to a `let PATTERN [: T] =` binding?"""
+    j = i - 1
+    while j >= 0 and texts[j] not in (';', '{', '}'):
+        j -= 1
+    return j + 1 < len(texts) and texts[j + 1] == 'let'
+
+
+_LOOPS = {}
+
+
+def _in_loop(text, line):
+    """Is 1-based `line` of the generated file inside the body of a `while` / `loop` / `for` loop?"""
+    if not line:
+        return False
+    key = hash(text)
+    if key not in _LOOPS:
+        from rtok import tokenize, match_close
+        toks = tokenize(text)
+        spans = []
+        for i, t in enumerate(toks):
+            if t.kind == 'id' and t.text in ('while', 'loop') or (t.kind == 'id' and t.text == 'for' and i > 0 and toks[i - 1].text in ('{', '}', ';', ':')):
+                j = i + 1
+                while j < len(toks) and toks[j].text != '{':
+                    if toks[j].text in ('(', '['):
+                        j = match_close(toks, j)
+                    j += 1
+                if j < len(toks):
+                    try:
+                        k = match_close(toks, j)
+                    except ValueError:
+                        continue
+                    spans.append((text.count('\n', 0, toks[j].start) + 1, text.count('\n', 0, toks[k].start) + 1))
+        _LOOPS.clear()
+        _LOOPS[key] = spans
+    return any(a <= line <= b for a, b in _LOOPS[key])
+
+
 DEFAULT_RLIMIT = 30   # Verus' default is 10; units that need more than ~1/3 of this are split (DESIGN.md section 7)
 
 
-def run_unit(unit_name, repo='/repo', rlimit=None, twins=True, extra_args=(), tag='', extra_consts=()):
+def run_unit(unit_name, repo='/repo', rlimit=None, twins=True, extra_args=(), tag='', extra_consts=(), inline=()):
     res = UnitResult(unit_name)
     t0 = time.time()
     try:
-        u = generate(unit_name, repo, extra_consts)
+        u = generate(unit_name, repo, extra_consts, inline)
     except GenError as e:
         if getattr(e, 'derive_only', False):
             # the derive users of hooks/syncx_blocks.rs use only documented features; when the ONLY compiler errors lie
@@ -302,6 +422,7 @@ def run_unit(unit_name, repo='/repo', rlimit=None, twins=True, extra_args=(), ta
             fn = '<unit-lemma>'
         res.failures.append({'unit': unit_name, 'fn': fn, 'label': label or ('%s.%s' % (fn, kind)), 'kind': kind,
                              'props': props, 'message': msg, 'gen_line': gen_line, 'src': src, 'stmt': stmt,
+                             'labelled': bool(label), 'in_loop': _in_loop(text, gen_line),
                              'rendered': d.get('rendered', '')[:3000]})
     # a resource limit hit while Verus was looking for FURTHER errors in a function that already has a definite
     # failed obligation does not make that failure undecided; a limit with no definite failure does.
@@ -318,7 +439,19 @@ def run_unit(unit_name, repo='/repo', rlimit=None, twins=True, extra_args=(), ta
         if missing and not extra_consts and all(h.startswith('verus/rustc error: cannot find value') for h in hard):
             found = _find_consts(u, repo, sorted(missing))
             if len(found) == len(missing):
-                return run_unit(unit_name, repo, rlimit, twins, extra_args, tag, tuple(found))
+                return run_unit(unit_name, repo, rlimit, twins, extra_args, tag, tuple(found), inline)
+        # a restructured function may call a NEW small helper method the template does not cut; when the helper is a
+        # pure expression (no mutation, no early exit, no loop) its call is replaced by its body (rule X-INLINE) and
+        # the restructured function is verified against the unchanged contract
+        helpers = set()
+        for h in hard:
+            m = re.match(r'verus/rustc error: no method named `(\w+)` found for ', h)
+            if m:
+                helpers.add(m.group(1))
+        if helpers and not inline and all(h.startswith('verus/rustc error: no method named') for h in hard):
+            rules = _find_inline_rules(u, repo, sorted(helpers))
+            if rules and len(rules) == len(helpers):
+                return run_unit(unit_name, repo, rlimit, twins, extra_args, tag, extra_consts, tuple(rules))
         res.status, res.reason = 'undecided', '; '.join(hard[:4])
         return res
     if js is None:
